@@ -20,7 +20,7 @@ RULE = ('the real ActiveFabricSource with both delivery threads; 2-5 subscriber 
 ASSUMPTIONS = ['publications concurrent with a subscription may or may not reach it (0 or 1 delivery accepted)']
 PROBES = ['resubscription', 'equal_content_queues_same_signal']
 PLAN = {
-  'quick': {'strata': {'sub-pub': 5000, 'stop-restart': 1500}, 'wall_s': 300, 'chunk': 50, 'min_conclusive': 1000},
+  'quick': {'strata': {'sub-pub': 5000, 'stop-restart': 3000}, 'wall_s': 300, 'chunk': 50, 'min_conclusive': 1000},
   'thorough': {'strata': {'sub-pub': 150000, 'stop-restart': 50000}, 'wall_s': 900, 'chunk': 100, 'min_conclusive': 1000},
 }
 
